@@ -148,6 +148,7 @@ func injectFaults(lines []string, r *Rng) []fault {
 
 func runC11(ctx *Ctx) {
 	r := ctx.Rng.Fork()
+	regCorrespondence(ctx, r, ctx.Budget(3000, 100000))
 	n := ctx.Budget(150, 8000)
 	for i := 0; i < n && len(ctx.Violations) < 15; i++ {
 		m := GenModel(r)
